@@ -11,13 +11,15 @@ def finale(r, want):
     I, T = r.cfg.interval, r.cfg.timeout
     if 'drain' in want:
         fl = r.flags()
+        by_history = 'by-history' in want          # whether an upgrade is in progress is taken from the history, not from the server's own mark
         for s, f in fl.items():
-            if f is not None and not f[0] and not f[2] and not f[3]:
+            busy = oracles.handshake_in_progress(r, s, len(r.log) - 1) if by_history else f is not None and f[2]
+            if f is not None and not f[0] and not busy and not f[3]:
                 r.do(('poll', s))
                 drained.append(s)
                 for _ in range(6):          # a poll returns at most 16 packets: keep reading while something is queued
                     g = r.flags().get(s)
-                    if g is None or g[0] or g[2] or g[3] or not g[4]:
+                    if g is None or g[0] or (g[2] and not by_history) or g[3] or not g[4]:
                         break
                     r.do(('poll', s))
     if 'settle' in want:
@@ -28,9 +30,9 @@ def finale(r, want):
     return drained
 
 
-def evaluate(kind, cfg, ops, names, want, seed=0):
+def evaluate(kind, cfg, ops, names, want, seed=0, runner_kw=None):
     rng = random.Random(seed)
-    r = hist.Runner(kind, cfg, rng, disc_raises=[False, False, 'runtime', 'typeerror'][seed % 4])
+    r = hist.Runner(kind, cfg, rng, **(runner_kw if runner_kw is not None else dict(disc_raises=[False, False, 'runtime', 'typeerror'][seed % 4])))
     res = vlib.Result()
     try:
         for op in ops:
